@@ -159,3 +159,85 @@ DEPENDENT_LINES = {
     ("H", None): set(),
     ("#", None): set(),
 }
+
+# --------------------------------------------------------------------------
+# C10: the read-only surface (owner -> method/property names), enumerated from
+# the categories of the property statement: string conversion, field and tag
+# reads, validation, cloning, comparison and diff, alignment complement and
+# length queries, link complement/equivalence/compatibility tests,
+# neighbourhood and topology queries, path and set resolution, searches, and
+# the datatype codecs they use.  Version conversion (to_gfa1/to_gfa2*), which
+# documents that it assigns a missing ID, is outside the list.
+READ_ONLY = {
+    "alignment.cigar.CIGAR.Operation": "__eq__ __len__ __repr__ __str__ validate",
+    "alignment.cigar.CIGAR": "__repr__ __str__ complement length_on_query length_on_reference validate",
+    "alignment.placeholder.AlignmentPlaceholder": "__repr__ complement",
+    "alignment.trace.Trace": "__repr__ __str__ complement validate",
+    "byte_array.ByteArray": "__str__ validate",
+    "field_array.FieldArray": "__eq__ __getattr__ __iter__ __repr__ __str__ datatype validate",
+    "gfa.Gfa": "__str__ dialect to_file validate version vlevel",
+    "graph_operations.linear_paths.LinearPaths": "linear_path linear_paths",
+    "graph_operations.topology.Topology": "connected_components is_cut_link is_cut_segment n_containments n_dead_ends n_dovetails n_internals segment_connected_component",
+    "lastpos.LastPos": "__eq__ __int__ __lt__ __repr__ __str__ validate",
+    "lastpos": "isfirstpos islastpos posvalue",
+    "line.comment.writer.Writer": "__str__ to_list",
+    "line.common.cloning.Cloning": "clone",
+    "line.common.connection.Connection": "all_references gfa is_connected",
+    "line.common.dynamic_fields.DynamicFields": "__getattribute__",
+    "line.common.equivalence.Equivalence": "__eq__ __hash__ diff diffscript",
+    "line.common.field_data.FieldData": "get positional_fieldnames record_type tagnames try_get",
+    "line.common.field_datatype.FieldDatatype": "get_datatype",
+    "line.common.validate.Validate": "validate validate_field",
+    "line.common.version_conversion.VersionConversion": "dialect version",
+    "line.common.virtual_to_real.VirtualToReal": "virtual",
+    "line.common.writer.Writer": "__repr__ __str__ field_to_s refstr to_list to_str _tags",
+    "line.custom_record.construction.Construction": "positional_fieldnames tagnames",
+    "line.edge.common.alignment_type.AlignmentType": "is_containment is_dovetail is_internal",
+    "line.edge.common.from_to.FromTo": "from_end from_name is_circular is_circular_same_end other_end to_end to_name",
+    "line.edge.containment.canonical.Canonical": "is_canonical",
+    "line.edge.containment.pos.Pos": "rpos",
+    "line.edge.containment.to_gfa2.ToGFA2": "from_coords to_coords",
+    "line.edge.gfa1.oriented_segments.OrientedSegments": "oriented_from oriented_to",
+    "line.edge.gfa1.other.Other": "other other_oriented_segment",
+    "line.edge.gfa1.to_gfa2.ToGFA2": "alignment beg1 beg2 eid end1 end2 sid1 sid2",
+    "line.edge.gfa2.other.Other": "other other_oriented_segment",
+    "line.edge.gfa2.to_gfa1.ToGFA1": "from_orient from_segment oriented_from oriented_to overlap pos to_orient to_segment",
+    "line.edge.gfa2.validation.Validation": "validate_positions",
+    "line.edge.gfa2.alignment_type.AlignmentType": "_alignment_type",
+    "line.edge.link.canonical.Canonical": "is_canonical",
+    "line.edge.link.complement.Complement": "complement",
+    "line.edge.link.equivalence.Equivalence": "__hash__ are_tags_eql is_compatible is_compatible_complement is_compatible_direct is_complement is_eql is_same",
+    "line.edge.link.to_gfa2.ToGFA2": "from_coords to_coords",
+    "line.fragment.validation.Validation": "validate_positions",
+    "line.group.ordered.captured_path.CapturedPath": "captured_edges captured_path captured_segments",
+    "line.group.path.captured_path.CapturedPath": "captured_edges captured_path captured_segments",
+    "line.group.path.topology.Topology": "is_circular is_linear",
+    "line.group.unordered.induced_set.InducedSet": "induced_edges_set induced_segments_set induced_set",
+    "line.header.multiline.Multiline": "field_to_s _tags _split _n_duptags",
+    "line.segment.coverage.Coverage": "coverage try_get_coverage",
+    "line.segment.length_gfa1.LengthGFA1": "length try_get_length validate_length",
+    "line.segment.references.References": "contained containers containments dovetails dovetails_of_end edges end_relations gaps gaps_of_end neighbours neighbours_L neighbours_R neighbours_of_end oriented_relations relations_to _connectivity",
+    "line.segment.writer_wo_sequence.WriterWoSequence": "__str__",
+    "line.unknown.unknown.Unknown": "__str__ virtual",
+    "lines.collections.Collections": "comments containments custom_record_keys custom_records custom_records_of_type dovetails edge_names edges external_names fragments gap_names gaps lines names path_names paths segment_names segments set_names sets",
+    "lines.finders.Finders": "fragments_for_external line segment select try_get_line try_get_segment _search_link _search_duplicate",
+    "lines.headers.Headers": "header headers n_input_header_lines",
+    "numeric_array.NumericArray": "__str__ compute_subtype from_string integer_type validate",
+    "oriented_line.OrientedLine": "__eq__ __getattr__ __repr__ __str__ inverted line name orient validate",
+    "placeholder.Placeholder": "__bool__ __eq__ __getitem__ __len__ __repr__ __str__ complement is_empty rc validate",
+    "placeholder": "is_placeholder",
+    "rgfa.RGFA": "is_rgfa stable_sequence_names validate_rgfa",
+    "segment_end.SegmentEnd": "__eq__ __getattr__ __repr__ __str__ end_type inverted name segment validate",
+    "segment_end_path.SegmentEndsPath": "__reversed__",
+    "sequence": "Sequence rc",
+    "symbol_invert": "invert",
+}
+# every datatype module of Field.FIELD_MODULE contributes these functions
+READ_ONLY_CODEC = ["decode", "unsafe_decode", "encode", "unsafe_encode",
+                   "validate_encoded", "validate_decoded"]
+# documented API-private accumulator parameters (function short name -> names)
+ACCUMULATOR_PARAMS = {
+    "graph_operations.topology.Topology.segment_connected_component":
+        ["visited"],
+    "graph_operations.linear_paths.LinearPaths.linear_path": ["exclude"],
+}
